@@ -77,6 +77,10 @@ class Runner(object):
         self.ro_violations = []
         self.infos = []
         self.target_ids = []
+        self.pairs = []
+        self.copy_event = None
+        self.last_all_ids = set()
+        self.track_pairs = False
 
     def sha(self):
         import hashlib
@@ -149,6 +153,31 @@ class Runner(object):
             _, th, dh, lt = op
             o = self.obj(th).create_feature(self.obj(dh), lt)
             return self.new_handle("Feature", o)
+        if t == "copy":
+            _, dh, xh, name, keep, children = op
+            d, x, dk, xk = self.obj(dh), self.obj(xh), self.kind(dh), self.kind(xh)
+            kw = {} if name is None else {"name": name}
+            pre_ids = set(self.digest.known_ids) | set(self.last_all_ids)
+            src_before = (self.subwalk(xk, x), self.subwalk(xk, x, xk == "Section" and not children))
+            self.src_dups = self.sub_dups
+            if dk == "File" and xk == "Block":
+                o = d.create_block(copy_from=x, keep_copy_id=keep, **kw)
+            elif dk == "Block" and xk == "DataArray":
+                o = d.create_data_array(copy_from=x, keep_copy_id=keep, **kw)
+            elif dk == "Block" and xk == "Tag":
+                o = d.create_tag(copy_from=x, keep_copy_id=keep, **kw)
+            elif dk == "Block" and xk == "MultiTag":
+                o = d.create_multi_tag(copy_from=x, keep_copy_id=keep, **kw)
+            elif dk in ("File", "Section") and xk == "Section":
+                o = d.copy_section(x, children=children, keep_id=keep, **kw)
+            elif dk == "Section" and xk == "Property":
+                o = d.create_property(copy_from=x, keep_copy_id=keep, **kw)
+            else:
+                raise TypeError("not a copy call")
+            self.copy_event = self.after_copy(op, d, x, o, xk, pre_ids, src_before)
+            if keep:
+                self.any_kept = True
+            return self.new_handle(xk, o)
         if t == "lookup":
             _, ph, c, k = op
             o = getattr(self.obj(ph), CONT_ATTR[c])[self.key(k)]
@@ -267,6 +296,224 @@ class Runner(object):
             return 0
         raise RuntimeError("unknown op %r" % (op,))
 
+    # ---- C20: model-free observations around a copy
+    SUB = {"Block": "block", "DataArray": "data_array", "Tag": "tag", "MultiTag": "multi_tag", "Section": "section",
+           "Property": "prop"}
+
+    def subwalk(self, kind, o, shallow=False):
+        w = nixwalk.Walker(False, set())
+        w.no_subsections = shallow
+        try:
+            toks = getattr(w, self.SUB[kind])(o)
+        except Exception as exc:
+            toks = ["walk failed: " + type(exc).__name__]
+        # two entities may share an id once a kept-id copy has been made inside this file
+        self.sub_dups = bool(w.dup_ids) or getattr(self, "any_kept", False)
+        return toks, set(w.defined) | set(t for _, _, t in w.linked if isinstance(t, str))
+
+    def after_copy(self, op, d, x, o, xk, pre_ids, src_before):
+        _, dh, xh, name, keep, children = op
+        shallow = (xk == "Section" and not children)
+        src, src_ids = src_before[1]
+        cp, cp_ids = self.subwalk(xk, o)
+        ev = {"step": self.step - 1, "keep": bool(keep), "shallow": shallow, "problems": []}
+        want_name = name if name is not None else x.name
+        if o.name != want_name:
+            ev["problems"].append("the returned entity is named %r, not %r" % (o.name, want_name))
+        try:
+            same_obj = (o._h5group.group.name if xk != "Property" else o._h5dataset.dataset.name) == \
+                (x._h5group.group.name if xk != "Property" else x._h5dataset.dataset.name)
+        except Exception:
+            same_obj = False
+        if same_obj:
+            ev["problems"].append("the returned entity is the source itself")
+        # same content modulo the top name and (fresh ids) an injective renaming onto new ids
+        if len(src) != len(cp):
+            ev["problems"].append("the copy's walk has %d tokens, the source's %d" % (len(cp), len(src)))
+        else:
+            ren = {}
+            for k, (a, b) in enumerate(zip(src, cp)):
+                if k == 2 and xk != "Property":
+                    continue                  # the name in the header
+                if k == 2 and xk == "Property":
+                    continue
+                if isinstance(a, str) and a in src_ids:
+                    if keep:
+                        if a != b:
+                            ev["problems"].append("an id was not kept")
+                            break
+                    else:
+                        if (ren.setdefault(a, b) != b and not self.src_dups) or not isinstance(b, str):
+                            ev["problems"].append("ids are not renamed consistently")
+                            break
+                elif a != b:
+                    ev["problems"].append("the copy differs from the source at token %d: %r vs %r" % (k, b, a))
+                    break
+            if not keep and not ev["problems"]:
+                new = list(ren.values())
+                if len(set(new)) != len(new) and not self.src_dups:
+                    ev["problems"].append("two entities of the copy share a fresh id")
+                if any(v in pre_ids for v in new):
+                    ev["problems"].append("a 'fresh' id of the copy already existed in the file")
+        if xk == "Block":
+            try:
+                ns, bs = self.internal_links(x)
+            except Exception:
+                ns, bs = -1, -1           # the source itself is not walkable (e.g. a multi-tag that lost its positions)
+            try:
+                if bs != 0:
+                    raise StopIteration
+                nc, bc = self.internal_links(o)
+                ev["internal_links"] = [ns, bs, nc, bc]
+                if bs == 0 and (nc != ns or bc != 0):
+                    ev["problems"].append("%d of the copy's %d internal links (source: %d) designate entities outside the copy"
+                                          % (bc, nc, ns))
+            except StopIteration:
+                pass
+            except Exception as exc:
+                ev["problems"].append("walking the copy's internal links failed: %s" % type(exc).__name__)
+        ev["inside_source"] = (self.subwalk(xk, x)[0] != src_before[0][0])
+        if not ev["inside_source"] and len(self.pairs) < 4:
+            self.pairs.append({"step": ev["step"], "keep": bool(keep), "kind": xk, "src": x, "cp": o, "shallow": shallow,
+                               "src_id": x.id, "cp_id": o.id, "src_ids": sorted(src_ids), "cp_ids": sorted(cp_ids)})
+        return ev
+
+    def cross_file_phase(self, path2):
+        """C20 across files (no model: the theorems hold for any destination store; this phase ties
+        them to the code): every block and top-level section is copied into a second file with kept
+        and with fresh ids; content, internal links and independence are checked on the real files"""
+        problems = []
+        n = 0
+        if self.readonly:
+            return {"copies": 0, "problems": []}
+        f2 = nixio.File.open(path2, nixio.FileMode.Overwrite)
+        try:
+            whole_before = nixwalk.walk(self.f, False, set())
+            for kind, items in (("Block", list(self.f.blocks)), ("Section", list(self.f.sections))):
+                for x in items[:3]:
+                    for keep in (True, False):
+                        nm = x.name if keep else "fresh " + x.name[:20]
+                        if "/" in nm:
+                            continue
+                        src = self.subwalk(kind, x)
+                        dups = self.sub_dups
+                        try:
+                            o = f2.create_block(name=nm, copy_from=x, keep_copy_id=keep) if kind == "Block" else \
+                                f2.copy_section(x, keep_id=keep, name=nm)
+                        except Exception as exc:
+                            problems.append("cross-file copy of %s %r (keep=%s) raised %s: %s" % (kind, x.name, keep, type(exc).__name__, str(exc)[:60]))
+                            continue
+                        n += 1
+                        cp = self.subwalk(kind, o)
+                        if len(cp[0]) != len(src[0]):
+                            problems.append("cross-file copy of %s %r: %d tokens, source %d" % (kind, x.name, len(cp[0]), len(src[0])))
+                            continue
+                        ren = {}
+                        for k, (a, b) in enumerate(zip(src[0], cp[0])):
+                            if k == 2:
+                                continue
+                            if isinstance(a, str) and a in src[1]:
+                                if keep and a != b:
+                                    problems.append("cross-file copy: an id was not kept")
+                                    break
+                                if not keep and ((ren.setdefault(a, b) != b and not dups) or b in src[1]):
+                                    problems.append("cross-file copy of %s %r: ids not renamed consistently to new ids (token %d)" % (kind, x.name, k))
+                                    break
+                            elif a != b:
+                                problems.append("cross-file copy of %s %r differs at token %d" % (kind, x.name, k))
+                                break
+                        if kind == "Block":
+                            try:
+                                ns, bs = self.internal_links(x)
+                                if bs == 0:
+                                    nc, bc = self.internal_links(o)
+                                    if (nc, bc) != (ns, 0):
+                                        problems.append("cross-file block copy: %d of %d internal links leave the copy" % (bc, nc))
+                            except Exception:
+                                pass
+                        # independence: change the copy, the source file must not move; and vice versa
+                        try:
+                            o.definition = "changed in the copy"
+                            if kind == "Block" and len(o.data_arrays):
+                                o.data_arrays[0].label = "lbl2"
+                                del o.data_arrays[0]
+                            if kind == "Section" and len(o.props):
+                                del o.props[0]
+                        except Exception as exc:
+                            problems.append("mutating the cross-file copy raised %s" % type(exc).__name__)
+                        if nixwalk.walk(self.f, False, set()) != whole_before:
+                            problems.append("a change to the cross-file copy of %s %r is visible in the source file" % (kind, x.name))
+                            whole_before = nixwalk.walk(self.f, False, set())
+            copies_before = nixwalk.walk(f2, False, set())
+            for x in list(self.f.blocks)[:2] + list(self.f.sections)[:2]:
+                try:
+                    x.definition = "changed in the source"
+                except Exception:
+                    pass
+            if nixwalk.walk(f2, False, set()) != copies_before:
+                problems.append("a change to the source is visible in the cross-file copies")
+        finally:
+            f2.close()
+        try:
+            os.remove(path2)
+        except OSError:
+            pass
+        return {"copies": n, "problems": problems}
+
+    @staticmethod
+    def internal_links(b):
+        """for a block: does every link list entry / positions / extents / feature data designate, as an HDF5 object,
+        an entity of this very block?  returns (links checked, links that leave the block)"""
+        def h5(e):
+            return e._h5group.group
+        own = {}
+        for attr in ("data_arrays", "tags", "multi_tags"):
+            own[attr] = [h5(e) for e in getattr(b, attr)]
+        srcs = []
+
+        def rec(items):
+            for x in items:
+                srcs.append(h5(x))
+                rec(x.sources)
+        rec(b.sources)
+        own["sources"] = srcs
+        n = bad = 0
+
+        def chk(e, attr):
+            nonlocal n, bad
+            n += 1
+            if not any(h5(e) == o for o in own[attr]):
+                bad += 1
+        for g in b.groups:
+            for attr in ("data_arrays", "tags", "multi_tags", "sources"):
+                for e in getattr(g, attr):
+                    chk(e, attr)
+        for t in list(b.tags) + list(b.multi_tags):
+            for e in t.references:
+                chk(e, "data_arrays")
+            for ft in t.features:
+                chk(ft.data, "data_arrays")
+            for e in t.sources:
+                chk(e, "sources")
+        for t in b.multi_tags:
+            chk(t.positions, "data_arrays")
+            if t.extents is not None:
+                chk(t.extents, "data_arrays")
+        for a in b.data_arrays:
+            for e in a.sources:
+                chk(e, "sources")
+        return n, bad
+
+    def pair_hashes(self):
+        out = []
+        # never observe through the object of an entity that is gone (a stale object re-creates groups)
+        self.pairs = [p for p in self.pairs if p["src_id"] in self.last_defined and p["cp_id"] in self.last_defined]
+        for p in self.pairs:
+            a = repr(self.subwalk(p["kind"], p["src"], False)[0])
+            b = repr(self.subwalk(p["kind"], p["cp"], False)[0])
+            out.append([p["step"], p["keep"], hash(a) & 0xffffffff, hash(b) & 0xffffffff, p["src_ids"], p["cp_ids"]])
+        return out
+
     # ---- model-free oracles for C13: plain recursion over the containers of fresh objects
     def filter_fn(self, flt):
         if flt[0] == "all":
@@ -336,8 +583,10 @@ class Runner(object):
 
     def run_op(self, op):
         self.oracle = "n/a"
+        self.copy_event = None
         tid = None
-        if op[0] in ("set_attr", "set_link", "force", "append", "remove") and op[1] < len(self.handles):
+        if op[0] in ("set_attr", "set_link", "force", "append", "remove", "create", "create_mtag", "create_feature", "delete") \
+                and op[1] < len(self.handles):
             tid = self.handles[op[1]][2]
         self.target_ids.append(tid)
         CLOCK[0] = 1000 + self.step
@@ -364,6 +613,12 @@ class Runner(object):
             res = ("err", code, type(exc).__name__ + ": " + str(exc)[:80])
         w, info = nixwalk.walk_info(self.f, self.with_times, ids)
         self.last_defined = info.pop("_defined_set")
+        self.last_all_ids = set(ids)
+        if self.track_pairs:
+            info["copy"] = self.copy_event
+            if op[0] == "reopen":
+                self.pairs = []
+            info["pairs"] = self.pair_hashes()
         self.infos.append(info)
         hr = self.digest.hash_stream(rt)
         hw = self.digest.hash_stream(w)
@@ -389,6 +644,8 @@ class Gen(object):
         self.profile = profile
         self.dead = set()
         self.retry = None
+        self.ncopies = 0
+        self.kept = False          # a copy with kept ids exists: ids are no longer unique in the file
 
     def live(self, kinds):
         return [i for i, (k, o, _) in enumerate(self.r.handles) if k in kinds and i not in self.dead]
@@ -428,7 +685,7 @@ class Gen(object):
                 return op
         w = dict(create=10, mtag=2, feature=2, lookup=3, lookup_link=1, delete=2, append=5, remove=2,
                  set_link=3, set_attr=4, reopen=0.5, bad=1, set_auto=0.2, probe=1, probe_link=0.5, force=0,
-                 find=0, parent=0, referring=0)
+                 find=0, parent=0, referring=0, copy=0)
         w.update(self.profile.get("weights", {}))
         kinds = list(w)
         for _ in range(50):
@@ -446,6 +703,21 @@ class Gen(object):
             pk = self.r.kind(ph)
             c = rnd.choice([x for x in HAS_CONT[pk] if x not in ("CMultiTags", "CFeatures")])
             return ("create", ph, c, self.name(), rnd.choice(TYPES), self.payload())
+        if t == "copy":
+            if self.ncopies >= self.profile.get("max_copies", 4):
+                return None
+            pairs = [("File", ["Block"]), ("Block", ["DataArray", "Tag", "MultiTag"]), ("File", ["Section"]),
+                     ("Section", ["Section"]), ("Section", ["Property"])]
+            dk, xks = rnd.choice(pairs)
+            ds, xs = self.live([dk]), self.live(xks)
+            if not ds or not xs:
+                return None
+            keep = True if self.kept else (rnd.random() < 0.4)
+            name = None if rnd.random() < 0.35 else "cp%d" % rnd.randint(0, 5)
+            self.ncopies += 1
+            if keep:
+                self.kept = True
+            return ("copy", rnd.choice(ds), rnd.choice(xs), name, keep, rnd.random() < 0.6)
         if t == "mtag":
             bs = self.live(["Block"])
             das = self.live(["DataArray"])
@@ -671,6 +943,7 @@ def gen_history(seed, length, profile, workdir, with_times, k):
     rnd = random.Random(seed)
     path = os.path.join(workdir, "h%d.nix" % k)
     r = Runner(path, with_times)
+    r.track_pairs = bool(profile.get("track_pairs"))
     g = Gen(rnd, r, profile)
     ops = []
     results = []
@@ -686,28 +959,31 @@ def gen_history(seed, length, profile, workdir, with_times, k):
         if op[0] == "reopen":
             g.dead = set()
         g.refresh_dead()
+    xfile = r.cross_file_phase(path + ".copy.nix") if profile.get("xfile") else None
     r.close()
     try:
         os.remove(path)
     except OSError:
         pass
-    return {"ops": ops, "results": results, "trace": r.trace, "ro_violations": r.ro_violations, "infos": r.infos, "target_ids": r.target_ids,
+    return {"xfile": xfile, "ops": ops, "results": results, "trace": r.trace, "ro_violations": r.ro_violations, "infos": r.infos, "target_ids": r.target_ids,
             "walks": r.walks if profile.get("keep_walks") else None}
 
 
 def replay_history(ops, workdir, with_times, k=0):
     path = os.path.join(workdir, "r%d.nix" % k)
     r = Runner(path, with_times)
+    r.track_pairs = True
     results = []
     for op in ops:
         op = tuple(tuple(x) if isinstance(x, list) and x and isinstance(x[0], str) and x[0] in ("name", "pos", "obj", "idof") else x for x in op)
         results.append(r.run_op(op))
+    xfile = r.cross_file_phase(path + ".copy.nix")
     r.close()
     try:
         os.remove(path)
     except OSError:
         pass
-    return {"ops": ops, "results": results, "trace": r.trace, "walks": r.walks, "ro_violations": r.ro_violations,
+    return {"xfile": xfile, "ops": ops, "results": results, "trace": r.trace, "walks": r.walks, "ro_violations": r.ro_violations,
             "infos": r.infos, "target_ids": r.target_ids}
 
 
